@@ -131,13 +131,18 @@ class SolutionTracks(Tracks):
             ndim=tracks.ndim,
             features=tracks.features,
         )
-        if force_recompute:
-            soln_tracks.enable_features(
-                [
-                    soln_tracks.features.tracklet_key,  # type: ignore[list-item]
-                    soln_tracks.features.lineage_key,  # type: ignore[list-item]
-                ]
+        # Always enable the track features, so that they are registered and kept up to
+        # date by later edits; only recompute them if the existing ids cannot be trusted.
+        track_keys = [
+            key
+            for key in (
+                soln_tracks.features.tracklet_key,
+                soln_tracks.features.lineage_key,
             )
+            if key is not None
+        ]
+        if track_keys:
+            soln_tracks.enable_features(track_keys, recompute=force_recompute)
         return soln_tracks
 
     @property
